@@ -2315,6 +2315,26 @@ class Interp(object):
             return all(self.truth_value(v) for v in args[0])
         if name == 'any':
             return any(self.truth_value(v) for v in args[0])
+        if name in ('max', 'min') and len(args) >= 1 and 'key' not in kwargs:
+            vals_ = args[0] if len(args) == 1 else args
+            vals_ = vals_.items if isinstance(vals_, SArr) else list(
+                self.seq(vals_)) if not isinstance(
+                    vals_, (list, tuple)) else vals_
+            isnan = lambda v: isinstance(v, Opaque) and v.desc == 'np.nan'
+            if vals_ and any(isnan(v) for v in vals_) and all(
+                    isnan(v) or (is_scalar(v) and to_rat(v).is_const())
+                    for v in vals_):
+                # Python's max / min: the running value is replaced only
+                # when a comparison with it is true, and every comparison
+                # with NaN is false - a NaN that is not first is dropped
+                cur = vals_[0]
+                for v in vals_[1:]:
+                    if isnan(cur) or isnan(v):
+                        continue
+                    a, b = to_rat(v).constant(), to_rat(cur).constant()
+                    if (a > b) if name == 'max' else (a < b):
+                        cur = v
+                return cur
         if name in ('max', 'min') and len(args) >= 1:
             vals_ = args[0] if len(args) == 1 else args
             vals_ = vals_.items if isinstance(vals_, SArr) else vals_
